@@ -122,6 +122,17 @@ def run(R):
         return CS.proj_crypt(op, a, b)
     diffs = compare(R, ops, il, ml, proj, "fail-closed")
     bad = oracle(ops, meta, il, ml)
+    # the stale-material search is a heuristic (a shared suffix with what the object held before): a candidate is confirmed by running the same
+    # request on a fresh zeroed object - if that gives the same string the suffix is this call's own digest (e.g. `$2b$` and `$2y$` settings with
+    # the same salt and phrase share it: false alarm seen in the thorough tier), otherwise part of the result really came from the object
+    kept = []
+    for op, why, line in bad:
+        if "stale hash material" in why and op.startswith("C ") and op.split(" ")[1] != "st":
+            t = op.split(" ")
+            fresh = R.run_impl(["O %s z 0 0" % t[2], op])
+            if len(fresh) == 2 and fields(fresh[1]).get("out") == fields(line).get("out"): continue
+        kept.append((op, why, line))
+    bad = kept
     n = sum(1 for o in ops if o.startswith("C "))
     R.cov["evaluations"] = n
     R.cov["distinct_nontrivial"] = len({o for o, l in zip(ops, il) if o.startswith("C ") and (fields(l).get("ret") == "NULL" or fields(l).get("out", "").startswith("2a"))})
